@@ -18,19 +18,20 @@ TOL = 1e-10
 # scale of a row is sum|w f B_row| + FLOOR * sum|w f| |d|^deg.  For Cartesian and radial rows the second term is zero-effect
 # (B_row IS the envelope), so those stay strictly row-relative.
 FLOOR = 1e-3
+COND = 20.0
 UNDERFLOW = 1e-290
 RULE = (
     "Post-conditions attached to Grid.moments (inherited by every grid class), utils.generate_orders_horton_order and "
     "utils.dipole_moment_of_molecule fire on EVERY call (also the incidental ones): every returned row and centre is compared with "
     "sum_i w_i f_i B_row(p_i - R_c) accumulated in long double, with B from independent references (monomials by repeated "
     "multiplication, |d|^n, sqrt(4pi/(2l+1))|d|^l Y_lm from an own normalised recursion validated against mpmath/closed forms/"
-    "addition theorem, |d|^n x solid harmonic), relative to sum|w f B| (tol 1e-10); the returned order list is compared with an own "
+    "addition theorem, |d|^n x solid harmonic), relative to sum|w f B| (tol 1e-10; harmonic types: plus COND*eps*(l+1)^2*sum|w f||d|^deg/sin(phi_i), the conditioning of a polar angle taken as arccos(z/r), so that a grid point near the polar axis of a centre cannot alarm); the returned order list is compared with an own "
     "enumeration of the documented Horton order; shape must be (rows, centres). Cases: random-grid = every (type, order 0..8, "
     "1..5 centres, dimension: Cartesian and radial 1-D (flat (N,) and (N,1) points)/2-D/3-D, pure and pure-radial 3-D) with seeded random points/weights "
     "(signed, zero)/f, order passed as int/np.int64/np.int32; real-grid = AtomGrid, MolGrid, UniformGrid 2-D/3-D, Tensor1DGrids, "
     "AngularGrid, PeriodicGrid, LocalGrid, OneDGrid rules and transformed radial grids (flat (N,) points) x types x orders; dipole = random molecules (1-5 atoms) on random/Mol/Uniform "
     "grids against sum Z(R-Rcm) - sum w rho (p-Rcm); generator = all types x orders 0..12 x dim; hostile = centre on a grid "
-    "point, points on / near (cone 0.1-0.5 rad) the z axis, narrow cones 1e-6..1e-1 rad (decided against the row envelope only, loss of digits recorded), duplicate centres, huge dynamic range, integer-typed inputs, non-contiguous views. "
+    "point, points on / near (cone 0.1-0.5 rad) the z axis, narrow cones 1e-6..1e-1 rad (loss of digits relative to the row recorded; decided with the condition-aware tolerance), duplicate centres, huge dynamic range, integer-typed inputs, non-contiguous views. "
     "dipole grids: the molecule's own MolGrid/AtomGrid, plain/uniform grids, and MolGrids/AtomGrids built on a permuted atom order, "
     "displaced positions or another molecule than the coords/charges arguments (the helper must use its arguments). centre-list = one "
     "call whose centre list mixes distant centres (1e3..1e11 x extent) before/between/after ordinary ones, all types and dimensions: "
@@ -139,12 +140,20 @@ def _post_moments(res, exc, args, kwargs):
     cplx = np.iscomplexobj(f)
     if cplx:  # complex function values: quadrature is linear, decide real and imaginary parts separately
         S1, A1, E1, orders = c14ref.ref_moments(t, L, pts, w, np.ascontiguousarray(f.real), cent)
+        amp1 = c14ref.ref_moments.last_amp
         S2, A2, E2, _ = c14ref.ref_moments(t, L, pts, w, np.ascontiguousarray(f.imag), cent)
-        S, A, E = S1 + 1j * S2, A1 + A2, E1 + E2
+        S, A, E, AMP = S1 + 1j * S2, A1 + A2, E1 + E2, amp1 + c14ref.ref_moments.last_amp
         ctx.count("moments:complex function values")
     else:
         S, A, E, orders = c14ref.ref_moments(t, L, pts, w, f, cent)
+        AMP = c14ref.ref_moments.last_amp
     A = A + FLOOR * E  # conditioning floor for rows that (nearly) vanish by symmetry, see FLOOR
+    # condition-aware part (harmonic types only): a grid point whose polar angle about the centre is close to 0 or pi is evaluated
+    # by ANY arccos(z/r) route with an error eps/sin(phi) in phi, i.e. (l+1)^2 eps/sin(phi) |w f| |d|^deg in the row.  The admissible
+    # error of an entry is TOL * (sum|w f B| + FLOOR * envelope) + COND * that sum (model/observed ratio <= 0.16 for cones 0.3 .. 1e-10
+    # rad, COND = 20); for ordinary geometry the second term is below 1e-2 of the envelope, so 1e-10 of the row is kept.
+    A_row = A  # strictly row-relative scale (used to RECORD the loss of digits in narrow cones)
+    A = A + (COND / TOL) * AMP
     A = A + np.where(A > 0, UNDERFLOW, 0.0)  # subnormal products carry fewer digits: absolute errors below 1e-300 are not counted
     if a["return_orders"]:
         ok_tuple = isinstance(res, tuple) and len(res) == 2
@@ -186,11 +195,11 @@ def _post_moments(res, exc, args, kwargs):
         with np.errstate(all="ignore"):
             diff = np.abs(vals.astype(np.clongdouble if (cplx or np.iscomplexobj(vals)) else np.longdouble) - S)
             envrel = float(np.max(np.where(E > 0, diff / np.where(E > 0, E, 1), np.where(diff == 0, 0.0, np.inf))))
-            rowrel = float(np.max(np.where(A > 0, diff / np.where(A > 0, A, 1), 0.0)))
+            rowrel = float(np.max(np.where(A_row > 0, diff / np.where(A_row > 0, A_row, 1), 0.0)))
         ctx.check("narrow-cone-within-envelope", subj, envrel if not np.isnan(vals).any() else float("nan"), 1e-6, sig="envelope-relative", detail={"cone": _state["narrow"], "L": L})
         if rowrel > TOL:
             ctx.observe("pure moments in a narrow cone about the polar axis lose digits relative to the row (arccos polar angle)", cone=_state["narrow"], row_relative_error=rowrel, envelope_relative_error=envrel, type=t, L=L)
-        return
+        # ... and decided like every other call with the condition-aware entry tolerance below
     with np.errstate(all="ignore"):
         diff = np.abs(vals.astype(np.clongdouble if (cplx or np.iscomplexobj(vals)) else np.longdouble) - S)
         rel = np.where(A > 0, diff / np.where(A > 0, A, 1), np.where(diff == 0, 0.0, np.inf))
@@ -679,7 +688,7 @@ def _centre_list(ctx, params):
     with ctx.guard("no-exception", subj):
         full = np.asarray(g.moments(_order_arg(L, k), c, f, t))
         S, A, E, _ = c14ref.ref_moments(t, L, pts, g.weights, f, c)
-        scale_rc = A + FLOOR * E + UNDERFLOW
+        scale_rc = A + FLOOR * E + UNDERFLOW + (COND / TOL) * c14ref.ref_moments.last_amp
         worst, wj = 0.0, None
         for j in range(m):
             alone = np.asarray(g.moments(L, c[j : j + 1].copy(), f, t))
